@@ -553,6 +553,45 @@ static void histories(vh::Trace& tr, const Block& b, Sys& S, const Routes& R, vh
   }
 }
 
+// ------------------------------------------------------------------------------------------- on-the-fly projector, groups
+// forward_project(RelatedViewgrams&, ranges) of the on-the-fly ray-tracing projector into viewgrams that already contain data
+static void otf_groups(vh::Trace& tr, const Block& b, Sys& S, vh::Rng& rng, int n) {
+  ForwardProjectorByBinUsingRayTracing f;
+  f.set_up(S.pdi, S.zero_image);
+  shared_ptr<DataSymmetriesForViewSegmentNumbers> sym(f.get_symmetries_used()->clone());
+  std::vector<ViewSegmentNumbers> bl;
+  for (int seg = S.min_seg; seg <= S.pdi->get_max_segment_num(); ++seg)
+    for (int view = 0; view < S.nviews; ++view) {
+      ViewSegmentNumbers vs(view, seg);
+      if (sym->is_basic(vs)) bl.push_back(vs);
+    }
+  shared_ptr<ExamInfo> ei(new ExamInfo);
+  ProjDataInMemory data(ei, S.pdi);
+  shared_ptr<Image> x(S.zero_image->clone());
+  for (int q = 0; q < n; ++q) {
+    const ViewSegmentNumbers vs = bl[rng.next() % bl.size()];
+    Win w{ 0, vs.view_num(), vs.segment_num(), 0, 0, 0, 0, 0, -1, q % 3 };
+    const int a0 = S.pdi->get_min_axial_pos_num(vs.segment_num()), a1 = S.pdi->get_max_axial_pos_num(vs.segment_num());
+    const int t0 = S.min_tang, t1 = S.min_tang + S.ntang - 1;
+    w.axlo = a0; w.axhi = a1; w.tlo = t0; w.thi = t1;
+    if (w.mode >= 1) { w.axlo = rng.range(a0, a1); w.axhi = rng.range(w.axlo, a1); }
+    if (w.mode == 2) { w.tlo = rng.range(t0, t1); w.thi = rng.range(w.tlo, t1); }
+    const std::vector<int> y = random_ints(rng, S.nb, 3, q == 0 ? 0 : 70), xv = random_ints(rng, S.nv, 2, 60);
+    set_data(S, data, y);
+    set_image(S, *x, xv);
+    std::string m;
+    const bool err = vh::threw([&] {
+      f.set_input(*x);
+      RelatedViewgrams<float> r = data.get_related_viewgrams(vs, sym, false, w.k);
+      fwd_window(f, r, w);
+      if (data.set_related_viewgrams(r) != Succeeded::yes) error("c04: set_related_viewgrams failed");
+    }, &m);
+    const DataLog d = log_data(S, data);
+    tr.emit(vh::Json("OtfGroup").arr("w", std::vector<int>{ w.bv, w.bs, w.k, w.axlo, w.axhi, w.tlo, w.thi, w.mode }).arr("y", y).arr("x", xv)
+                .boolean("err", err).arr("ord", d.ord).arr("fx", d.fx));
+  }
+}
+
 // ------------------------------------------------------------------------------------------- blocks
 static std::vector<Block> blocks(int tier) {
   auto D = [](int N, int R, int span, int maxDelta, int mash, int tofMash, int maxT, int numTang, const char* geom = "Cylindrical") {
@@ -644,6 +683,7 @@ int main(int argc, char** argv) {
     emit_config(tr, b, S, bi, wins, otf);
     emit_bins(tr, S, R, otf);
     if (b.nhist > 0) histories(tr, b, S, R, rng);
+    if (otf) otf_groups(tr, b, S, rng, tier == 0 ? 6 : 9);
     tr.flush();
   }
   return 0;
